@@ -1,1 +1,67 @@
-(* C05 ProofsGivens — placeholder, filled below *)
+(* C05 — Givens rotations: c^2 + s^2 = 1, the rotation zeroes the targeted
+   entry, and the applied map is orthogonal. *)
+From Coq Require Import Reals List Lia Lra Bool.
+From ADV Require Import Base.Num C05.Model C05.Spec C05.ProofsBase.
+Import ListNotations.
+Open Scope R_scope.
+
+Lemma inv_sqrt_sq (w : R) : 0 < w -> (1 / sqrt w) * (1 / sqrt w) * w = 1.
+Proof.
+  intro Hw. assert (Hs : sqrt w <> 0) by (apply Rgt_not_eq; apply sqrt_lt_R0; auto).
+  assert (E : sqrt w * sqrt w = w) by (apply sqrt_sqrt; lra).
+  rewrite <- E at 3. field. exact Hs.
+Qed.
+
+Lemma givens_cases (a b : R) :
+  (b = 0 /\ givens XR a b = (1, 0)) \/
+  (b <> 0 /\ Rabs a < Rabs b /\
+   givens XR a b = (- (a / b) * (1 / sqrt (- (a / b) * - (a / b) + 1)), 1 / sqrt (- (a / b) * - (a / b) + 1))) \/
+  (b <> 0 /\ a <> 0 /\
+   givens XR a b = (1 / sqrt (- (b / a) * - (b / a) + 1), - (b / a) * (1 / sqrt (- (b / a) * - (b / a) + 1)))).
+Proof.
+  unfold givens. change (eqb (nx XR)) with Reqb. change (ltb (nx XR)) with Rltb.
+  change (nabs (nx XR)) with Rabs. change (zero (nx XR)) with 0. change (one (nx XR)) with 1.
+  destruct (Reqb b 0) eqn:Eb.
+  - left. apply Reqb_true in Eb. auto.
+  - assert (Hb : b <> 0) by (intro Hb; apply Reqb_true in Hb; congruence).
+    right. destruct (Rltb (Rabs a) (Rabs b)) eqn:El.
+    + left. apply Rltb_true in El. repeat split; auto.
+    + right. split; auto. split; [|reflexivity].
+      intro Ha. subst a. rewrite Rabs_R0 in El.
+      assert (Rltb 0 (Rabs b) = true) by (apply Rltb_true; apply Rabs_pos_lt; auto). congruence.
+Qed.
+
+Lemma givens_unit (a b : R) : let cs := givens XR a b in fst cs * fst cs + snd cs * snd cs = 1.
+Proof.
+  destruct (givens_cases a b) as [(_ & E)|[(_ & _ & E)|(_ & _ & E)]]; rewrite E; simpl.
+  - lra.
+  - set (t := - (a / b)). assert (Hw : 0 < t * t + 1) by nra.
+    pose proof (inv_sqrt_sq _ Hw) as Hq. nra.
+  - set (t := - (b / a)). assert (Hw : 0 < t * t + 1) by nra.
+    pose proof (inv_sqrt_sq _ Hw) as Hq. nra.
+Qed.
+
+(* the rotation computed from (a, b) sends (a, b) to (r, 0) *)
+Lemma givens_zeroes (a b : R) :
+  let cs := givens XR a b in snd (giv_apply XR (fst cs) (snd cs) a b) = 0.
+Proof.
+  destruct (givens_cases a b) as [(Hb & E)|[(Hb & _ & E)|(Hb & Ha & E)]]; rewrite E; simpl.
+  - subst b. lra.
+  - field. split; [|exact Hb]. apply Rgt_not_eq. apply sqrt_lt_R0. nra.
+  - field. split; [|exact Ha]. apply Rgt_not_eq. apply sqrt_lt_R0. nra.
+Qed.
+
+(* apply is an orthogonal 2x2 map whenever c^2 + s^2 = 1 *)
+Lemma giv_apply_inner (c s a1 a2 b1 b2 : R) :
+  c * c + s * s = 1 ->
+  fst (giv_apply XR c s a1 a2) * fst (giv_apply XR c s b1 b2) +
+  snd (giv_apply XR c s a1 a2) * snd (giv_apply XR c s b1 b2) = a1 * b1 + a2 * b2.
+Proof.
+  intro H. simpl. transitivity ((c * c + s * s) * (a1 * b1 + a2 * b2)); [ring|rewrite H; ring].
+Qed.
+
+Lemma giv_apply_norm (c s a1 a2 : R) :
+  c * c + s * s = 1 ->
+  fst (giv_apply XR c s a1 a2) * fst (giv_apply XR c s a1 a2) +
+  snd (giv_apply XR c s a1 a2) * snd (giv_apply XR c s a1 a2) = a1 * a1 + a2 * a2.
+Proof. intro H. apply giv_apply_inner. exact H. Qed.
